@@ -248,6 +248,18 @@ func c07Scenarios(tier string) []engine.Scenario {
 				n := fmt.Sprintf("login(B1,x,pw:cur,rm=%v)", rm)
 				a = append(a, flows.A(n, func(s *world.Stack, _ *world.World) world.Req { return flows.Login(s, "B1", x, P1, rm) }, ""))
 			}
+			// the remember field present but saying no in another spelling: not a request to be remembered
+			for _, v := range []string{"0", "False"} {
+				a = append(a, flows.A(fmt.Sprintf("login(B1,x,pw:cur,rm-field=%s)", v), func(s *world.Stack, _ *world.World) world.Req {
+					r := flows.Login(s, "B1", x, P1, false)
+					f := map[string]string{"rm": v}
+					for k, fv := range r.Form {
+						f[k] = fv
+					}
+					r.Form = f
+					return r
+				}, ""))
+			}
 			a = append(a, flows.A("login(B2,bystander,pw:cur,rm=true)", func(s *world.Stack, _ *world.World) world.Req { return flows.Login(s, "B2", c07Bystander, P2, true) }, ""))
 			for _, b := range bothBrowsers {
 				a = append(a, flows.Restart(b))
